@@ -35,7 +35,9 @@ def main():
         out.flush()
         return
     A = Tensor.from_dok({(0, 1): 2.0, (1, 0): 3.0, (1, 2): 1.0}, dimensions=(2, 3), format="ds")
-    FMT = {"sparse": "ss", "dense": "dd", "scalar": ""}
+    # E has a support disjoint from A's, so a product with it gives a compressed result with NO stored coordinate
+    E = Tensor.from_dok({(0, 0): 5.0}, dimensions=(2, 3), format="ss")
+    FMT = {"sparse": "ss", "dense": "dd", "scalar": "", "empty": "ss", "empty_ds": "ds"}
     names = {}      # name -> python object (Tensor or cffi struct)
     arrays = {}     # object id -> [addresses]
 
@@ -52,6 +54,12 @@ def main():
 
     def expression(in_kind, out_kind):
         o = "y(i,j)" if out_kind != "scalar" else "y()"
+        if out_kind in ("empty", "empty_ds"):
+            if in_kind is None:
+                return "y(i,j) = A(i,j) * E(i,j)"
+            if in_kind == "scalar":
+                return "y(i,j) = A(i,j) * E(i,j) * x()"
+            return "y(i,j) = x(i,j) * E(i,j) * A(i,j)"
         if in_kind is None:
             return f"{o} = A(i,j) * 2" if out_kind != "scalar" else "y() = A(i,j) * A(i,j)"
         if in_kind == "scalar":
@@ -68,11 +76,12 @@ def main():
                 src = req.get("input")
                 lib.verif_capture(1)
                 try:
+                    extra = {"E": E} if req["kind"] in ("empty", "empty_ds") else {}
                     if src is None:
-                        res = evaluate(expression(None, req["kind"]), FMT[req["kind"]], A=A)
+                        res = evaluate(expression(None, req["kind"]), FMT[req["kind"]], A=A, **extra)
                     else:
                         x = names[src]
-                        res = evaluate(expression(req["in_kind"], req["kind"]), FMT[req["kind"]], A=A, x=x)
+                        res = evaluate(expression(req["in_kind"], req["kind"]), FMT[req["kind"]], A=A, x=x, **extra)
                         del x
                 finally:
                     lib.verif_capture(0)
